@@ -85,7 +85,8 @@ class MemTrigger(BaseTrigger):
 
         # Map each condition to this trigger
         for condition_id in trigger.condition_ids:
-            self._condition_triggers[condition_id].append(trigger.trigger_id)
+            if trigger.trigger_id not in self._condition_triggers[condition_id]:
+                self._condition_triggers[condition_id].append(trigger.trigger_id)
 
     def _get_trigger(self, trigger_id: str) -> "TriggerDefinitionDTO | None":
         """
